@@ -5,6 +5,37 @@ ROOT = os.path.dirname(os.path.dirname(os.path.abspath(__file__)))
 
 # id -> (technique, level text, level note, design ref)
 CHECKS = {
+ "C07": ("metamorphic property-based testing (proptest): triples built from equivalence-preserving and near-miss variants, both directions against a reference equivalence (R-EQUIV), RST laws, 23 cross-type impls, every comparison under catch_unwind",
+         "300 k triples per quick run over 11 comparable kinds x 2 families, incl. ill-formed %XX octets; the expected verdict is computed from the two texts by the documented rule, independently of how the variant was made.",
+         "Trusts the octet decoder / Appendix-B splitter / dot-segment model in the harness.", "DESIGN.md 4/C07"),
+ "C08": ("metamorphic property-based testing (proptest): Eq=>Hash under two fixed hashers, total-order laws, owned vs borrowed, cross-type PartialOrd, every Borrow view incl. HashSet/BTreeSet lookups",
+         "200 k triples per quick run, 9 ordered pairs each; collection lookups through each Borrow view of equal and unequal values.",
+         "Hash values are only related through equality; Borrow<str>/<[u8]> are outside the property.", "DESIGN.md 4/C08"),
+ "C13": ("differential property-based testing (proptest): 42 conversion routes against the independent recogniser, and URI-family vs IRI-family on the same ASCII input (components, ==/cmp/hash, resolution, editing traces)",
+         "150 k cases per quick run; success iff the target grammar accepts, text/address preserved, failure hands back the original.",
+         "Trusts R-ABNF for the expected success of each conversion.", "DESIGN.md 4/C13"),
+ "C14": ("property-based testing (proptest): (type, input) x ~30 routes out and ~25 routes in (incl. serde value deserialisers for strings and byte strings), text identity and accept-iff-constructor-accepts",
+         "150 k (type, input) pairs per quick run over valid, mutated and ill-formed-UTF-8 inputs for all 20 types.",
+         "Routes in are judged against the library's checked constructor (whose language is C01's subject).", "DESIGN.md 4/C14"),
+ "C15": ("round-trip property-based testing (proptest): pairs around a shared stem; relative_to then resolution, judged by the library and by the reference resolver/equivalence",
+         "300 k pairs per quick run, classes for every relation of a to b's directory.",
+         "Two recorded findings are excluded by narrow matchers (unreachable targets with a final dot segment; C06 resolution quirk).", "DESIGN.md 4/C15"),
+ "C16": ("property-based testing (proptest): (value, prefix) pairs around a shared stem with equivalence-preserving rewrites; iff-oracle on normalized segment prefixes; base() against a text cut",
+         "200 k cases per quick run over Path::suffix, Ri/RiRef::suffix and base().",
+         "Trusts the dot-segment model and octet decoder.", "DESIGN.md 4/C16"),
+ "C17": ("generated programs with the compiler in the loop: batches of macro invocations compiled with rustc (JSON diagnostics mapped to literals), accepted constants compared with the run-time parse in a second generated program",
+         "1000 (quick) to ~19 k (thorough) one-invocation programs over 4 macros x 3 source spellings; compile-time rejected set == run-time rejected set; values indistinguishable.",
+         "The compiler is part of the system under test; thousands, not millions, of programs.", "DESIGN.md 4/C17"),
+ "C18": ("property-based testing (proptest): data-URL-shaped byte strings and mutants; borrowed vs owned differential, reassembly, own RFC 4648 codec; watchdog for unbounded loops; libFuzzer in thorough",
+         "300 k inputs per quick run; every accessor of the borrowed form (re-scan) against the owned form (stored offsets) and against the text's own split.",
+         "Media-type syntax is left open (accept => shape, not the converse).", "DESIGN.md 4/C18"),
+ "C19": ("exhaustive enumeration of all 1- and 2-escape patterns (x 10 types) + structured longer patterns + proptest mixes; octet-decoder and std::str::from_utf8 as oracle",
+         "663 k enumerated + 100 k random components per quick run; bytes() always, chars/len/decode/==str on well-formed octets, totality and non-aliasing on ill-formed ones.",
+         "Two recorded findings in the pct-str / utf8-decode dependencies (panic on ill-formed octets; overlong forms accepted) are excluded by matchers keyed on octet well-formedness and panic site.", "DESIGN.md 4/C19"),
+ "C20": ("property-based testing (proptest) with a counting global allocator (thread-local, armed around the calls) and pointer-range checks",
+         "100 k inputs per quick run (incl. > 64 KiB), ~35 read-only calls each inside one armed region; allocation count must be 0 and every slice must lie in the input in component order.",
+         "Allocating operations (normalized*, suffix, relative_to, to_owned, resolution) are outside the statement.", "DESIGN.md 4/C20"),
+
  "C01": ("exhaustive enumeration (every byte / Unicode scalar value per context, all short strings over a focused alphabet, all IPv6/dec-octet shapes) + proptest (grammar derivations, mutants, random bytes), differential against an independent RFC 3986/3987 recogniser; libFuzzer in thorough",
          "Both directions of 'accepted iff derivable' on ~60 M enumerated and ~400 k random (type, input) pairs per quick run, through every construction route, with text/payload identity. Closes all single-token and short-string sub-domains completely; longer inputs are sampled.",
          "Trusts the hand-transcribed RFC grammar (self-checked: RFC example tables, interpreter vs automaton, direct IPv4/IPv6 recogniser). The driver's stamp makes the verdict one about the current grammar/automaton files.", "DESIGN.md 4/C01"),
